@@ -499,6 +499,13 @@ func (th *Thread) callFn(caller *frame, fn *ssa.Function, args []Value, env []Va
 		w.res.StubsUsed[in.name]++
 		return th.callFn(caller, in.stub, args, nil)
 	}
+	if e.Pure[in.name] && w.inInit == 0 {
+		for i, a := range args {
+			if u, ok := a.(UStr); ok {
+				return th.callLifted(caller, fn, args, env, i, u)
+			}
+		}
+	}
 	if in.intrinsic != nil {
 		if !in.harnessRT {
 			w.res.Intrinsics[in.name]++
@@ -1337,4 +1344,103 @@ func (e *Engine) touchesPkgGlobals(fn *ssa.Function) bool {
 	}
 	e.infoMu.Unlock()
 	return r
+}
+
+// callLifted evaluates a pure function once per alternative of a
+// finite-alphabet string argument and merges the results under the same
+// selector, so that the choice stays inside the formula instead of forking.
+func (th *Thread) callLifted(caller *frame, fn *ssa.Function, args []Value, env []Value, idx int, u UStr) Value {
+	p := th.p
+	p.w.res.Intrinsics["lifted over alternatives: "+fn.String()]++
+	results := make([]Value, len(u.Alt))
+	// alternatives that are no longer possible on this path need no evaluation
+	for i, alt := range u.Alt {
+		a2 := append([]Value(nil), args...)
+		a2[idx] = Str{S: alt}
+		results[i] = th.callFn(caller, fn, a2, env)
+	}
+	return th.mergeLifted(results, u)
+}
+
+func (th *Thread) mergeLifted(vals []Value, u UStr) Value {
+	// identical results?
+	k0, ok0 := concreteKey(vals[0])
+	same := ok0
+	if same {
+		for _, v := range vals[1:] {
+			k, ok := concreteKey(v)
+			if !ok || k != k0 {
+				same = false
+				break
+			}
+		}
+	}
+	if same {
+		if _, isPtr := vals[0].(*Value); !isPtr {
+			return vals[0]
+		}
+	}
+	switch v0 := vals[0].(type) {
+	case Str:
+		alts := make([]string, len(vals))
+		for i, v := range vals {
+			s, ok := v.(Str)
+			if !ok || s.B != nil {
+				return vals[th.p.concretizeN(u.Sel, len(u.Alt))]
+			}
+			alts[i] = s.S
+		}
+		return UStr{Alt: alts, Sel: u.Sel}
+	case *Term:
+		res := v0
+		for i := len(vals) - 1; i >= 0; i-- {
+			t, ok := vals[i].(*Term)
+			if !ok {
+				return vals[th.p.concretizeN(u.Sel, len(u.Alt))]
+			}
+			if i == len(vals)-1 {
+				res = t
+			} else {
+				res = Ite(Eq(u.Sel, BV(8, uint64(i))), t, res)
+			}
+		}
+		return res
+	case Tuple:
+		out := make(Tuple, len(v0))
+		for c := range v0 {
+			comp := make([]Value, len(vals))
+			for i, v := range vals {
+				comp[i] = v.(Tuple)[c]
+			}
+			out[c] = th.mergeLifted(comp, u)
+		}
+		return out
+	case Iface:
+		// typically an error: split the alternatives into nil / non-nil
+		nilSet := FalseT
+		anyNil, anyNon := false, false
+		firstNon := -1
+		for i, v := range vals {
+			if v.(Iface).T == nil {
+				anyNil = true
+				nilSet = Or(nilSet, Eq(u.Sel, BV(8, uint64(i))))
+			} else {
+				anyNon = true
+				if firstNon < 0 {
+					firstNon = i
+				}
+			}
+		}
+		if !anyNon {
+			return Iface{}
+		}
+		if !anyNil {
+			return vals[firstNon]
+		}
+		if th.p.branch(nilSet) {
+			return Iface{}
+		}
+		return vals[firstNon]
+	}
+	return vals[th.p.concretizeN(u.Sel, len(u.Alt))]
 }
